@@ -36,6 +36,12 @@ typedef struct {
 
 /* a caller may also stop asking as soon as it has received the declared number of bytes (no trailing read that returns 0) */
 static int STOP_AT_DECLARED;
+/* a second decoder (stored data, another declared length and so another block total) lives next to the one under test; a
+ * monitor is attached to it after the first read of the decoder under test and it is read once in between */
+static int BYSTANDER;
+static mon_t MON2;
+static const uint8_t BY_DATA[64] = { 1, 2, 3 };
+static vin_t VINB;
 static size_t BLOCK;
 
 /* one run: schedule = list of sizes used cyclically; monitor attached after 'attach' reads (-1: never) */
@@ -53,8 +59,15 @@ static void run_schedule(const char *method, const uint8_t *in, size_t n, size_t
 	VIN.p = in; VIN.n = n; VIN.pos = 0; VIN.chunk = 0; VIN.calls = VIN.zero_calls = 0;
 	d = lha_decoder_new(t, vin_cb, &VIN, declared);
 	if (!d) { r->obs = 1; return; }
+	LHADecoder *by = NULL;
+	if (BYSTANDER) {
+		VINB.p = BY_DATA; VINB.n = sizeof BY_DATA; VINB.pos = 0; VINB.chunk = 0;
+		by = lha_decoder_new(lha_decoder_for_name("-lh0-"), vin_cb, &VINB, 50000);
+		memset(&MON2, 0, sizeof MON2);
+	}
 	for (;;) {
 		size_t ask = sched[reads % nsched], got;
+		if (by && reads == 1) { uint8_t tmp[8]; lha_decoder_monitor(by, mon_cb, &MON2); (void) lha_decoder_read(by, tmp, sizeof tmp); }
 		if (attach == reads) lha_decoder_monitor(d, mon_cb, &MON);
 		if (poison) vf_poison_stack(poison);
 		got = lha_decoder_read(d, OUT + total, ask);
@@ -75,6 +88,7 @@ static void run_schedule(const char *method, const uint8_t *in, size_t n, size_t
 	r->crc = crc;
 	r->mon = MON;
 	r->obs = vf_mix(vf_hash(OUT, total, crc), total);
+	if (by) lha_decoder_free(by);
 	lha_decoder_free(d);
 }
 
@@ -114,9 +128,10 @@ static const char *sched_str(const size_t *s, int n)
 static void explore_stream(const char *method, const stream_t *st, int depth, int poison_only)
 {
 	size_t E = st->elen;
-	size_t decls[6] = { 0, 1, E ? E - 1 : 0, E, E + 1, 4 * E };
-	int di;
-	for (di = 0; di < 6; ++di) {
+	/* the last three: 2^32 and beyond (the declared length is a size_t); -pm1- is endless by specification and is left out */
+	size_t decls[9] = { 0, 1, E ? E - 1 : 0, E, E + 1, 4 * E, (size_t) 1 << 32, ((size_t) 1 << 32) + (E > 2 ? E / 2 : 1), ((size_t) 1 << 33) + 7 };
+	int di, ndecl = sizeof(size_t) > 4 && strcmp(method, "-pm1-") && E < 100000 ? 9 : 6;
+	for (di = 0; di < ndecl; ++di) {
 		size_t declared = decls[di];
 		run_t base, r;
 		size_t one[1];
@@ -170,6 +185,12 @@ static void explore_stream(const char *method, const stream_t *st, int depth, in
 					if (!vf_case("%s %s declared=%zu composition=%s attach=%d", method, st->what, declared, sched_str(sc, ns), attach)) continue;
 					run_schedule(method, st->s, st->n, declared, sc, ns, attach, 0, &r);
 					check_run(method, st, declared, &base, &r, sched_str(sc, ns), attach);
+					if (attach == 0 && ns > 1) {
+						BYSTANDER = 1;
+						run_schedule(method, st->s, st->n, declared, sc, ns, attach, 0, &r);
+						BYSTANDER = 0;
+						check_run(method, st, declared, &base, &r, "(the same, with a second monitored decoder alive)", attach);
+					}
 					if (attach >= 0 && attach < ns && base.len == declared && declared > 0) {
 						STOP_AT_DECLARED = 1;
 						run_schedule(method, st->s, st->n, declared, sc, ns, attach, 0, &r);
@@ -199,6 +220,12 @@ static void explore_stream(const char *method, const stream_t *st, int depth, in
 							if (!vf_case("%s %s declared=%zu sched=%s attach=%d", method, st->what, declared, sched_str(sc, len), attaches[attach])) continue;
 							run_schedule(method, st->s, st->n, declared, sc, len, attaches[attach], 0, &r);
 							check_run(method, st, declared, &base, &r, sched_str(sc, len), attaches[attach]);
+							if (attach == 1) {
+								BYSTANDER = 1;
+								run_schedule(method, st->s, st->n, declared, sc, len, attaches[attach], 0, &r);
+								BYSTANDER = 0;
+								check_run(method, st, declared, &base, &r, "(the same, with a second monitored decoder alive)", attaches[attach]);
+							}
 							if (attach > 0 && attach < 4 && base.len == declared) {
 								STOP_AT_DECLARED = 1;
 								run_schedule(method, st->s, st->n, declared, sc, len, attaches[attach], 0, &r);
